@@ -21,7 +21,7 @@ def selector_case(draw, target_kinds=("binary", "multiclass", "continuous"), pla
     n_qual = draw(st.integers(3, 6))
     quant = []
     for i in range(n_quant):
-        kind = draw(st.sampled_from(["latent", "latent", "copy", "neg", "scale", "cube", "noisy", "noisy", "const", "coarse"]))
+        kind = draw(st.sampled_from(["latent", "latent", "copy", "neg", "scale", "cube", "noisy", "noisy", "const", "coarse", "spiky", "spiky"]))
         rec = {"name": f"x{i}", "kind": kind, "src": draw(st.integers(0, n_lat - 1)), "noise": draw(st.integers(0, n_lat - 1)),
                "w": draw(st.sampled_from([1, 2, 4, 8])), "nan": draw(st.sampled_from([0, 0, 0, 5, 20, 45])), "nan_key": draw(st.integers(0, 10**6))}
         quant.append(rec)
@@ -66,6 +66,11 @@ def build_frame(case):
             col = src * rec["w"] + noise
         elif kind == "coarse":
             col = np.floor(src / 4.0)
+        elif kind == "spiky":  # a few far-out rows (1-4 % of them): outliers for the z-score / IQR pre-filters
+            col = src * rec["w"] + noise
+            rng = random.Random(rec["nan_key"] + 1)
+            for i in rng.sample(range(n), max(1, n * rec["w"] // 200)):
+                col[i] = (abs(col[i]) + 13) * 40 * (1 if i % 2 else -1)
         else:
             col = np.full(n, 7.0)
         if rec["nan"]:
